@@ -1,4 +1,5 @@
 import NutsModel.Drv.Common
+import NutsModel.Model.FlowSchedule
 import NutsModel.Model.Schedule
 import NutsModel.Gen.Numeric
 
@@ -115,9 +116,37 @@ def sched (t : Toks) : Verdict := Id.run do
     prev := ss
   return .ok
 
+/-- `flow case num_tune step_size_window freq n (tuning transformation_index)*`: a real flow-strategy chain
+    (NUTS or MCLMC); the model predicts the tuning flag of every draw and after which draws the transformation is
+    re-fitted (the index of the next draw's point changes exactly then). -/
+def flow (t : Toks) : Verdict := Id.run do
+  let some case := natAt t 1 | return .bad "case"
+  let some numTune := natAt t 2 | return .bad "num_tune"
+  let some w := fAt t 3 | return .bad "window"
+  let some freq := natAt t 4 | return .bad "freq"
+  let some n := natAt t 5 | return .bad "n"
+  if t.size != 6 + 2 * n then return .bad "length"
+  -- `((num_tune as f64) * (1 - step_size_window)).floor() as u64`
+  let finalWindow := (Float.floor (Float.ofNat numTune * (1.0 - w))).toUInt64.toNat
+  let run := flowRun { numTune := numTune, finalWindow := finalWindow, freq := freq } 0 n
+  let runA := run.toArray
+  for d in [0:n] do
+    let some tun := natAt t (6 + 2 * d) | return .bad "tuning"
+    let (mt, acts) := runA[d]!
+    if (tun == 1) != mt then
+      return .mismatch s!"flow case={case} draw={d}: tuning flag impl={tun} model={mt} (num_tune {numTune})"
+    if d + 1 < n then
+      let some i0 := intAt t (7 + 2 * d) | return .bad "index"
+      let some i1 := intAt t (9 + 2 * d) | return .bad "index"
+      let upd := acts.contains FlowAct.updateParams
+      if (i1 != i0) != upd then
+        return .mismatch s!"flow case={case}: adaptation after draw {d} changed the transformation index {i0} -> {i1}, model update={upd} (num_tune {numTune}, final window {finalWindow}, freq {freq})"
+  return .ok
+
 def dispatch (t : Toks) : Option Verdict :=
   match t[0]? with
   | some "sched" => some (sched t)
+  | some "flow" => some (flow t)
   | _ => none
 
 end NutsModel.Drv.C06
